@@ -381,6 +381,21 @@ def run(world, rep, tier, only=None):
         rep.ob("C15.m", site(dsx, "value file not cut at the block size#%d" % i), not by_block,
                "fread(buf, 1, %s, fp): the limit does not derive from the block size" % T.pp(lim or {})[:30])
 
+    # ------------------------------------------------------------------ C15.n an EA block that holds nothing any more is released
+    # ext2fs_xattrs_write() skips the EA block when every attribute fits the inode body, and the code it skips to frees
+    # a block the inode still has.  The decision to skip is made on the attribute counts alone: conjoined with "and the
+    # inode has no EA block", the freeing code can never see a block, and removing the last block-resident attribute
+    # leaves an empty block allocated for good.
+    done = [xw.block_end(b) for b in xw.blocks if xw.literal(b) and {"ibody_count", "count"} <= T.field_names(xw.literal(b)[0])]
+    rep.floor("C15.n the all-in-the-body test of ext2fs_xattrs_write", len(done), 1)
+    for i, e_ in enumerate(done):
+        lit = xw.literal(e_.bid)
+        yes = [m for (m, si) in xw.succ(e_) if (si == 0) == lit[1]]
+        tied = [m for m in yes if xw.literal(m.bid) and
+                any(cc.get("fn") == "ext2fs_file_acl_block" for cc in T.calls(resolve_local(xw, xw.literal(m.bid)[0])))]
+        rep.ob("C15.n", site(xw, "skipping the EA block does not depend on there being none#%d" % i), not tied,
+               "the outcome `ibody_count == count` leads on without a test of ext2fs_file_acl_block(): %s" % [m.line for m in tied])
+
     # ------------------------------------------------------------------ C15.h a command that could not do its work says so
     # debugfs ea_set / ea_rm / ea_get end silently when all went well.  When a library call failed (the handle could
     # not be opened, the attributes not read, the value not stored) silence would read as success: on the failing
